@@ -594,7 +594,22 @@ type arrival struct {
 }
 
 func runTransport(out *c10Out, rng *hx.Rng, tr transport, dir string, k int, nS, nM int, small bool, forModel bool) {
+	runTransportL(out, rng, tr, dir, k, nS, nM, small, forModel, nil)
+}
+
+// limRun: payload sizes AT the documented limits placed among the small messages of a run (c10limits.go)
+type limRun struct {
+	sizes map[[2]int]int // (sender, index in its list) -> payload size
+	note  string
+	// over: once everything has arrived, one more frame whose payload is one byte above MaxPayloadSize
+	over bool
+}
+
+func runTransportL(out *c10Out, rng *hx.Rng, tr transport, dir string, k int, nS, nM int, small bool, forModel bool, lim *limRun) {
 	desc := fmt.Sprintf("%s: %d senders x %d messages", tr.name, nS, nM)
+	if lim != nil {
+		desc += " " + lim.note
+	}
 	// two runs in three: Sends on other connections of the process have failed before, and (one in three) keep failing meanwhile
 	beside := func() {}
 	if k%3 != 0 {
@@ -610,12 +625,18 @@ func runTransport(out *c10Out, rng *hx.Rng, tr transport, dir string, k int, nS,
 	lists := make([][]net.Message, nS)
 	bytesTotal := 0
 	for s := 0; s < nS; s++ {
-		for _, sm := range genSizes(rng, nM, small) {
+		for i, sm := range genSizes(rng, nM, small) {
+			if lim != nil {
+				if sz, ok := lim.sizes[[2]int{s, i}]; ok {
+					sm.size = sz
+				}
+			}
 			lists[s] = append(lists[s], c10MessageX(s, sm))
 			bytesTotal += sm.size
 		}
 	}
 	skipFirst := rng.Intn(total/2 + 1)
+	leaveAt, leaveAt2 := rng.Intn(total/2+1), 1+rng.Intn(total-1)
 	hs := []*rx{
 		{name: "all", capq: total + 8, sel: func(n int, h *net.Header) (bool, bool) { return true, true }},
 		{name: "actions-0-2", capq: total + 8, sel: func(n int, h *net.Header) (bool, bool) { return h.Action == 0 || h.Action == 2, true }},
@@ -627,6 +648,16 @@ func runTransport(out *c10Out, rng *hx.Rng, tr transport, dir string, k int, nS,
 			return h.Type == net.Reply || h.Type == net.Error || h.Type == net.Cancel || h.Type == net.Cancelled, true
 		}},
 		{name: "id-or-object-above-2^31", capq: total + 8, sel: func(n int, h *net.Header) (bool, bool) { return h.ID >= 1<<31 || h.Object >= 1<<31, true }},
+		// the fourth answer a filter can give: (matched=false, keep=false) — the handler gives up on a message it
+		// does not take (a cancelled waiter): it must be closed without that message, and receive nothing later
+		{name: fmt.Sprintf("takes-none-leaves-at-%d", leaveAt), capq: 2, sel: func(n int, h *net.Header) (bool, bool) { return false, n < leaveAt }},
+		{name: fmt.Sprintf("actions-1-3-leaves-at-%d-without-taking", leaveAt2), capq: total + 8, sel: func(n int, h *net.Header) (bool, bool) {
+			if n >= leaveAt2 {
+				return false, false
+			}
+			return h.Action == 1 || h.Action == 3, true
+		}},
+		{name: "big-payloads", capq: total + 8, sel: func(n int, h *net.Header) (bool, bool) { return h.Size >= 1<<20, true }},
 	}
 	fin := func(e net.EndPoint) {
 		for _, r := range hs {
@@ -769,12 +800,14 @@ func runTransport(out *c10Out, rng *hx.Rng, tr transport, dir string, k int, nS,
 	if good {
 		for hi, r := range hs[1:] {
 			var want []*net.Message
+			ended := -1 // index of the arrival for which the filter answered keep=false
 			for n, m := range arr {
 				sel, keep := r.sel(n, &m.Header)
 				if sel {
 					want = append(want, m)
 				}
 				if !keep {
+					ended = n
 					break
 				}
 			}
@@ -788,15 +821,28 @@ func runTransport(out *c10Out, rng *hx.Rng, tr transport, dir string, k int, nS,
 			} else if !subsequence(have, want) {
 				out.Fails = append(out.Fails, fmt.Sprintf("%s: handler %q (queue of %d) received %s, which is not a subsequence of what its filter selects: %s", desc, r.name, r.capq, idList(have), idList(want)))
 			}
+			r.mu.Lock()
+			cl := r.closed
+			r.mu.Unlock()
 			if r.name == "first-only" && len(arr) > 0 {
-				r.mu.Lock()
-				cl := r.closed
-				r.mu.Unlock()
 				if !cl || len(have) != 1 {
 					out.Fails = append(out.Fails, fmt.Sprintf("%s: one-shot handler received %d messages, queue closed = %v", desc, len(have), cl))
 				}
+			} else if ended >= 0 && !cl {
+				m := arr[ended]
+				sel, _ := r.sel(ended, &m.Header)
+				out.Fails = append(out.Fails, fmt.Sprintf("%s: handler %q (slot %d): its filter answered (matched=%v, keep=false) for arrival %d (%d.%d) but its queue was not closed: the handler is still registered; it received %s",
+					desc, r.name, hi+1, sel, ended, c10Sender(&m.Header), m.Header.ID, idList(have)))
+			} else if ended < 0 && cl {
+				out.Fails = append(out.Fails, fmt.Sprintf("%s: handler %q (slot %d): its queue was closed although its filter always answered keep=true and the connection is up", desc, r.name, hi+1))
 			}
 		}
+	}
+	if good && lim != nil && lim.over {
+		overLimit(out, desc, tr.name, snd, hs, nS)
+	}
+	if lim != nil {
+		out.Dist["limit-sizes:"+tr.name]++
 	}
 	sw := switches(order)
 	out.Dist["transport:"+tr.name]++
@@ -1251,6 +1297,10 @@ func childC10(res *hx.Result, rng *hx.Rng, tier string, outdir string) {
 		save("transport " + tr.name + " (many senders)")
 		runTransport(out, rng, tr, outdir, k, 8+rng.Intn(8), 40, false, false)
 	}
+	if want("limits") {
+		save("payload sizes at the documented limits")
+		phaseLimits(out, rng, outdir, &k)
+	}
 	if want("start-up") {
 		save("start-up: the peer has written before the endpoint exists")
 		phaseStartUp(out, rng, outdir, 5*mult)
@@ -1312,6 +1362,8 @@ func runC10(res *hx.Result, rng *hx.Rng, tier string, outdir string) {
 		"send-then-end runs: 1..3 handlers of every flavour (MakeHandler with a queue of the harness, AddHandler with a consumer callback, ReceiveAny), 1..22 messages, the last 1..10 back to back, " +
 		"then the handler's life ends (the peer hangs up at once / connection reset / local Close / RemoveHandler / keep=false) while every consumer is still busy, on the same six transports, " +
 		"after RemoveHandler / keep=false a new handler takes the freed slot and more messages follow; " +
+		"one run per transport with payloads of 0, 1, MaxPayloadSize-1 and MaxPayloadSize bytes among small messages of three concurrent senders, then one frame of MaxPayloadSize+1 bytes (refused); " +
+		"transport handlers answer every (matched, keep) combination, (false, false) included; " +
 		"two sender runs in three are preceded (one in three also accompanied) by failing Sends on other connections of the process (8 kinds of failure, from 1..8 goroutines); " +
 		"operation sequences with 2..6 handlers (one in ten: 11..14 handlers, then removals) and 8..40 messages replayed on the model; non-trivial = the arrival order changes sender at least as often as there are senders, " +
 		"a dispatch c17script has >= 2 handlers, a start-up run has >= 2 handlers and >= 2 messages written ahead, or a send-then-end run has >= 2 messages; distinct by sha256 of (transport, arrival order), of the c17script text or of the start-up / send-then-end description"
